@@ -172,8 +172,9 @@ Clauses(e) ==
     [] e.op = "iv.scalar" -> {"C13.scalar_wellformed", "C13.scalar_kind", "C13.scalar_sound", "C13.scalar_tight"}
     [] e.op = "iv.binary" -> IF BinPanics(e.bop, e.a, e.b) THEN {"C13.binary_panic"}
                              ELSE {"C13.binary_wellformed", "C13.binary_kind", "C13.binary_sound", "C13.binary_tight"}
-    [] e.op = "iv.relative_to" -> IF RelPanics(e.a, e.b) THEN {"C13.relative_panic"}
-                             ELSE {"C13.relative_wellformed", "C13.relative_sound", "C13.relative_tight"}
+    [] e.op = "iv.relative_to" -> (IF RelPanics(e.a, e.b) THEN {"C13.relative_panic"}
+                                   ELSE {"C13.relative_wellformed", "C13.relative_sound", "C13.relative_tight"})
+                                  \cup (IF "dexp" \in DOMAIN e /\ ~RelPanics(e.a, e.b) THEN {"C13.relative_scale_free"} ELSE {})
     [] e.op = "iv.display" -> {"C19.display"} \cup (IF e.ty \in {"f64ext", "Stringlong"} THEN {"C19.display_long_elements"} ELSE {})
     [] e.op = "iv.approx" -> {"C19.symmetric", "C19.reflexive", "C19.ne_is_negation"}
                              \cup (IF e.a.k = e.b.k THEN {"C19.boundwise"} ELSE {"C19.kind_aware"})
